@@ -116,6 +116,33 @@ WireBad(w, p) ==
   ELSE p \o ".notjson." \o w.k
 IsWire(w) == WireBad(w, "IsWire") = ""
 
+\* --- equality of two wire forms of one type, insensitive to the element order under set types ------
+FieldType(d, name) == IF \E i \in 1..Len(d.fields) : d.fields[i][1] = name
+                      THEN d.fields[CHOOSE i \in 1..Len(d.fields) : d.fields[i][1] = name][2]
+                      ELSE [k |-> "any"]
+RECURSIVE WEq(_, _, _, _)
+WEq(T, a, b, defs) ==
+  IF a = b THEN TRUE
+  ELSE CASE T.k \in Wrappers -> WEq(T.a, a, b, defs)
+    [] T.k = "coll" ->
+         a.k = "list" /\ b.k = "list" /\ Len(a.xs) = Len(b.xs) /\
+         (IF T.c \in {"set", "frozenset"}
+          THEN (\A i \in 1..Len(a.xs) : \E j \in 1..Len(b.xs) : WEq(T.a, a.xs[i], b.xs[j], defs)) /\
+               (\A j \in 1..Len(b.xs) : \E i \in 1..Len(a.xs) : WEq(T.a, a.xs[i], b.xs[j], defs))
+          ELSE \A i \in 1..Len(a.xs) : WEq(T.a, a.xs[i], b.xs[i], defs))
+    [] T.k = "map" ->
+         a.k = "dict" /\ b.k = "dict" /\ Len(a.kv) = Len(b.kv) /\
+         \A i \in 1..Len(a.kv) : WEq(T.ka, a.kv[i][1], b.kv[i][1], defs) /\ WEq(T.va, a.kv[i][2], b.kv[i][2], defs)
+    [] T.k = "tup" ->
+         a.k = "list" /\ b.k = "list" /\ Len(a.xs) = Len(b.xs) /\ Len(a.xs) = Len(T.xs) /\
+         \A i \in 1..Len(a.xs) : WEq(T.xs[i], a.xs[i], b.xs[i], defs)
+    [] T.k = "union" -> \E m \in 1..Len(T.xs) : WEq(T.xs[m], a, b, defs)
+    [] T.k = "cls" ->
+         a.k = "dict" /\ b.k = "dict" /\ Len(a.kv) = Len(b.kv) /\
+         \A i \in 1..Len(a.kv) : a.kv[i][1] = b.kv[i][1] /\ a.kv[i][1].k = "str" /\
+              WEq(FieldType(defs[T.c], a.kv[i][1].s), a.kv[i][2], b.kv[i][2], defs)
+    [] OTHER -> FALSE
+
 \* --- type-level helpers ---------------------------------------------------------------------------
 RECURSIVE Strip(_)
 Strip(T) ==
